@@ -97,14 +97,29 @@ pub enum Family {
     Gentle,
 }
 
-/// Build a VM for the case: load program, register helpers and calculator.
+/// a trivial valid program used when the case is loaded through set_program on a VM that already
+/// holds another program
+pub static DUMMY_PROG: [u8; 16] = [0xb7, 0, 0, 0, 0x2a, 0, 0, 0, 0x95, 0, 0, 0, 0, 0, 0, 0];
+
+/// Build a VM for the case: load program, register helpers and calculator. Three load paths are
+/// used (chosen by the program's length, i.e. deterministically per case): `new(prog)` then
+/// configuration; `new(None)`, configuration, `set_program(prog)`; `new(other program)`,
+/// configuration, `set_program(prog)`.
 pub fn build_vm<'a>(c: &'a Case, family: Family) -> Result<Vm<'a>, String> {
-    let mut vm = Vm::new(c.kind, Some(&c.prog), c.offs)?;
+    let path = (c.prog.len() / 8) % 5;
+    let mut vm = match path {
+        1 => Vm::new(c.kind, None, c.offs)?,
+        2 => Vm::new(c.kind, Some(&DUMMY_PROG), (c.offs.1, c.offs.0))?,
+        _ => Vm::new(c.kind, Some(&c.prog), c.offs)?,
+    };
     for (id, j) in &c.helpers {
         vm.register_helper(*id, helper_for(*j, family))?;
     }
     if c.calc != CalcSpec::None {
         vm.set_calc(calc_fn, Box::new(c.calc.clone()))?;
+    }
+    if path == 1 || path == 2 {
+        vm.set_program(&c.prog, c.offs)?;
     }
     Ok(vm)
 }
